@@ -7,6 +7,14 @@ TRUSTED_BASE = [
 ]
 
 PROPS = {
+    "C01": dict(
+        assumptions=["matchers reach Lean as ASTs (govaluate's parser is not modelled); the harness prints each AST fully parenthesised as the matcher text casbin parses",
+                     "float64 request values and literals are integers in the model (the harness only uses integers)",
+                     "built-in functions are oracle parameters of the theorems; for the correspondence run their results are tabulated from the real functions (ora lines)",
+                     "hypothesis emptyPolicyOk: excludes the empty-policy shortcut on requests that satisfy the matcher against the all-empty rule (finding D24)"],
+        trusted=["modelled: enforcer.go enforce() (context selection, arity checks, policy branch, else-branch, result typing, effect column, streaming merge), RoleManagerImpl/DomainManager HasLink without matching functions, govaluate evaluation semantics for the supported operator subset (short-circuit, type checks after both sides, deep equality, comparisons, in, accessors on maps, function calls, eval())",
+                 "not modelled: govaluate's lexer/parser/planner, regexp, JSON requests, logging"],
+    ),
     "C06": dict(
         assumptions=["Go map[string]int as an association list with get/set/delete; Go slices as lists; strings.Join(rule, \",\") as String.intercalate",
                      "hypothesis WF06 (decidable, evaluated by the driver on every line): rules of the definition's arity with comma-free fields; update targets fresh; batches non-empty; filter in range"],
@@ -20,6 +28,7 @@ PROPS = {
 }
 
 LEVEL_TEXT = {
+    "C01": "Proved in Lean for every model definition, policy, grouping set, request, built-in function table and eval table: whenever the PERM reference semantics (specEnforce: matcher against every rule in stored order, g() = reachability within depth 10 through the listed grouping rules by direct recursion, effects combined by the four sentences of C02) specifies a decision, the mirror of enforce() returns it (enforce_eq_perm); the role manager's BFS is exactly reachability within the depth bound (hasLink_iff_reach), links built from rules are the rules' links (applyRules_links), EnforceWithMatcher(own matcher) = Enforce (withMatcher_own), error-free answers only depend on the rules up to the deciding one (loopFromE_some_prefix), the g() memo key is injective on NUL-free arguments. Tie: 14 model families x all policies/groupings up to 2 (quick) / 3 (thorough) rules x all requests through the real EnforceEx/Enforce/BatchEnforce/EnforceWithMatcher, plus seeded random matchers, graphs with cycles and chains around the depth limit.",
     "C06": "Proved in Lean by refinement: from a coherent store, every management call whose arguments satisfy WF06 yields the list and boolean of the list-of-unique-rules specification and keeps list and index coherent (refine_step), hence every history does (refine_hist); corollaries: present iff listed, never listed twice, removal/update keep order, filtered queries/removals exact, false iff unchanged, key injectivity on comma-free rules. Tie: all histories of depth <=3 (quick) / <=4 (thorough) over a 16-op alphabet for p, p2 and g through the real Enforcer API with the exported PolicyMap observed after every call, plus seeded random histories over a hostile universe (outside WF06 only model = implementation is checked).",
     "C02": "Proved in Lean for every effect kind and every vector of any length: the streaming fill-merge-break loop of enforce() over the pre-sized arrays decides exactly as the four sentences of the property (stream_eq_spec), order-insensitivity of the three order-insensitive effects (spec_perm, stream_perm), first-determinate semantics of priority, truthfulness of the explanation index (explain_truthful), fail-closed on unknown expressions. The model is tied to the code by replaying all 6^n vectors (n<=5 quick, n<=7 thorough) x 5 effects through the real Enforce/EnforceEx/BatchEnforce and all direct MergeEffects calls on arrays up to length 3.",
 }
